@@ -317,8 +317,9 @@ func c14Grammar(r *prng.Rand, t *c14Target, i int) []byte {
 
 func init() {
 	p := &core.Property{
-		ID:   "C14",
-		Rule: "for each of the 36 targets (nasConvert helpers taking UE-supplied contents, their WithError variants, DNN.GetDNN, the time decoders and the 15 MobileIdentity5GS text getters): every byte string of length 0, 1 and 2 (thorough: also 3), text targets every string of <=2 (thorough 3) symbols over a 40-symbol alphabet, plus generated inputs up to 300 octets biased to the target's grammar (identity types, length-prefixed entries that overrun, S-NSSAI lengths, damaged valid GUTIs). Element-typed targets get an element built the way the decoder builds it (SetLen(n) then contents). Non-trivial = input of at least one octet; distinct by target and input.",
+		ID:         "C14",
+		Interleave: []string{"one"},
+		Rule:       "for each of the 36 targets (nasConvert helpers taking UE-supplied contents, their WithError variants, DNN.GetDNN, the time decoders and the 15 MobileIdentity5GS text getters): every byte string of length 0, 1 and 2 (thorough: also 3), text targets every string of <=2 (thorough 3) symbols over a 40-symbol alphabet, plus generated inputs up to 300 octets biased to the target's grammar (identity types, length-prefixed entries that overrun, S-NSSAI lengths, damaged valid GUTIs). Element-typed targets get an element built the way the decoder builds it (SetLen(n) then contents). Non-trivial = input of at least one octet; distinct by target and input.",
 		Assumptions: []string{
 			"targets are the fixed list in harness/internal/monitor/c14.go, bound by name",
 			"termination is decided by the journal / two-stage hang rule and the memory watchdog; no model is needed",
